@@ -30,7 +30,7 @@ theorem Frame.refl (r : Reader) : Frame r r := ⟨rfl, rfl, rfl⟩
 
 theorem nextBlock_nil {F : File} {r : Reader} {pre : File} {m : Member} {k : Nat}
     (hwf : WF F) (h : At F r pre m [] k) :
-    r.nextBlock = ({ r with cur := { r.cur with base := csum F, tx := ⟨csum F, 0⟩ } }, some .eof) := by
+    r.nextBlock = ({ r with cur := Block.failed (csum F) }, some .eof) := by
   obtain ⟨hf, hs, hc, _, _⟩ := h
   have hw : WF (pre ++ [m]) := by rw [hs] at hwf; simpa using hwf
   have hm : memberAt r.file (r.cur.nextBase) = .eof := by
